@@ -515,5 +515,6 @@ func c18Units(t Tier, seed uint64, mode string) []engine.Unit {
 	c18Combos(&us, valAny(), seed, nOps, mode)
 	c18Combos(&us, valMap(), seed, nOps, mode)
 	c18Combos(&us, valU64(), seed, nOps, mode)
+	us = append(us, c18CrossUnits(seed)...)
 	return us
 }
